@@ -46,12 +46,25 @@ pub fn build_pass_1(
 
         match segment.t {
             SegmentType::Code => {
+                // images are allocated in pass 2, don't let them grow over any limit
+                if current_end_offset > device.flash_size {
+                    bail!(
+                        "Flash size overdue by {} words",
+                        current_end_offset - device.flash_size
+                    );
+                }
                 code_offset = current_end_offset;
             }
             SegmentType::Data => {
                 data_offset = current_end_offset;
             }
             SegmentType::Eeprom => {
+                if current_end_offset > device.eeprom_size {
+                    bail!(
+                        "Eeprom size overdue by {} bytes",
+                        current_end_offset - device.eeprom_size
+                    );
+                }
                 eeprom_offset = current_end_offset;
             }
         }
